@@ -1,5 +1,7 @@
 import PieModel.Props.C02
 import PieModel.Props.C02Once
+import PieModel.Props.C01Full
+import PieModel.Props.C01FullCex
 #print axioms PieModel.C02_consistent_memo
 #print axioms PieModel.C02_consistent_memo_sound
 #print axioms PieModel.C02_settled
@@ -15,3 +17,7 @@ import PieModel.Props.C02Once
 #print axioms PieModel.C02_exec_once_cleanBuild
 #print axioms PieModel.C02_executed_consistent
 #print axioms PieModel.C02_exec_once_history
+#print axioms PieModel.C02_minimal
+#print axioms PieModel.C02_consistent_iff_demanded
+#print axioms PieModel.C02_minimal_history
+#print axioms PieModel.C02_minimal_needs_writeExact
